@@ -915,7 +915,16 @@ func (propC14) Check(t *testing.T, p *Plan, st *Stats) *Violation {
 	// failed, cancelled or cut-short evaluation leaves nothing behind that makes a later
 	// one fail, lose data or leak a reader. Sampled: it costs two more executions.
 	if p.Harness == "engine" && !expectErr && p.Tags["either_way"] != "1" && p.Tags["undetermined"] != "1" &&
-		!o.GoroutineLeak && o.LateReleases == 0 && (p.Run+uint64(len(p.Faults)))%4 == 0 {
+		!o.GoroutineLeak && o.LateReleases == 0 &&
+		(p.Tags["after"] == "1" || p.Tags["after"] == "" && (p.Run+uint64(len(p.Faults)))%4 == 0) {
+		// (a plan that showed a clause (v) violation keeps the clause while it is minimised and replayed)
+		sticky := func(v *Violation) *Violation {
+			if p.Tags == nil {
+				p.Tags = map[string]string{}
+			}
+			p.Tags["after"] = "1"
+			return v
+		}
 		ref := o
 		if len(p.Faults) > 0 || o.Failed {
 			ref = Exec(t, c14Twin(p, false, nil), 0, ExecOpts{})
@@ -950,16 +959,16 @@ func (propC14) Check(t *testing.T, p *Plan, st *Stats) *Violation {
 			want := ref.Result.Render()
 			for i, ae := range o3.After {
 				if ae.Failed {
-					return viol("C14(v:after-faults-stop)", "once faults have stopped, the same Engine answers the query again (first evaluation: "+o3.ErrClass()+")",
-						fmt.Sprintf("evaluation #%d after the faulted one fails although the daemon answers faithfully: %s", i+1, clip(ae.ErrText, 300)))
+					return sticky(viol("C14(v:after-faults-stop)", "once faults have stopped, the same Engine answers the query again (first evaluation: "+o3.ErrClass()+")",
+						fmt.Sprintf("evaluation #%d after the faulted one fails although the daemon answers faithfully: %s", i+1, clip(ae.ErrText, 300))))
 				}
 				if ae.Render != want {
-					return viol("C14(v:after-faults-stop)", "once faults have stopped, the same Engine gives the complete answer: "+clip(want, 400),
-						fmt.Sprintf("evaluation #%d after the faulted one (which ended as: %s): %s", i+1, o3.ErrClass(), clip(ae.Render, 400)))
+					return sticky(viol("C14(v:after-faults-stop)", "once faults have stopped, the same Engine gives the complete answer: "+clip(want, 400),
+						fmt.Sprintf("evaluation #%d after the faulted one (which ended as: %s): %s", i+1, o3.ErrClass(), clip(ae.Render, 400))))
 				}
 			}
 			if v := closeViol(o3, "a faulted evaluation followed by fault-free ones on the same Engine"); v != nil {
-				return v
+				return sticky(v)
 			}
 		}
 	}
